@@ -434,6 +434,7 @@ func run(r *evid.Run) {
 		"phase protofile: the input is a .proto file reference: 25 DAG shapes on 3 files x assignment x package pattern (each file: own package, a shared package, no package statement: 27) x every file x include_package_files in {false, true}, API and (every fourth world) CLI. " +
 		"phase options: a custom option declared at each of 15 placements (file level, or inside message i1.i2.i3 of a binary message tree of depth 3; index 1 = not the first message of its parent) x extendee {File,Message,Field}Options x value {string, message literal, Any literal} x user {declaring file, importer in the same module, importer in another module} (quick: extendee and value rotate) + worlds with all 15 at once sharing extension numbers across extendees; API and CLI in every output encoding (binpb, json, txtpb, yaml; the text encodings are parsed back with a resolver made from the bare compiler's descriptors). phase cli also builds every world once in a text encoding (rotating). " +
 		"phase bystander: the workspace has one more module that contains no .proto file (3 content variants, listed last or first, v2 buf.yaml or v1 buf.work.yaml workspace) next to every DAG on <=2 files x assignment; every input directory, one --path or one --exclude-path (also over the non-proto files) and every .proto file reference, API and CLI: whenever that module is not targeted as a whole the build must succeed with the image of the targeted files. " +
+		"phase referrors: the input kind of the planted-error cases: 4 base workspaces with a configuration file (two v2 modules, editions module at the root, v1 buf.work.yaml workspace, a module in a sub-directory with two files of one package, an unrelated unimported file and the package continued in a second module) x every token x {delete, duplicate} x every file as a .proto file reference x include_package_files in {false, true}; API every selection, CLI two of them per mutation (absolute / relative directory; thorough: all, both forms, + files copied to memory): diagnostics, whether they come from the compiler or from the package/import scan that precedes it, must name places where the workspace does not compile, by the path the user gave. " +
 		"configuration dimension of the CLI runs: the files are copied to memory first (BUF_BETA_COPY_FILES_TO_MEMORY) or not, diagnostics are printed in each --error-format (text, json, msvs, junit, github-actions); errors phase: every case runs once in the default configuration and once with one setting changed (10 combinations with the directory form, rotating; thorough: the product, 20 runs), cli and bystander phases: every input directory once more from memory. " +
 		"A case is distinct by (workspace, selection[, encoding][, configuration]) resp. (base, file, token, operator); " +
 		"it is non-trivial if the image has >=2 files resp. the mutation is a compile error.")
@@ -445,6 +446,7 @@ func run(r *evid.Run) {
 	r.Assume("selections buf refuses by design (module directory as --path/--exclude-path, exclude containing a path) may error; when they build, the image is checked")
 	r.Assume("a selection that makes a module without .proto files a target as a whole (input = the workspace root or that module, no --path) may be refused (buf demands a .proto file of every module it is asked to build); with --path, a sibling module directory as the input or a .proto file reference that module is not a target and must not influence the build")
 	r.Assume("the path the user gave: `buf build <dir>` names a file <dir>/<path below dir> in every diagnostics format, with <dir> exactly as typed (absolute, or relative to the working directory: the scratch directories are reached through ../), whether the files are read from disk or from the in-memory copy")
+	r.Assume("a .proto file reference over a workspace that does not compile: diagnostics equal to the bare compiler's for the reference targets, or a non-empty set of positions each on a (file, line) where the bare compiler reports an error when that file is compiled on its own (buf may stop at the first file whose package/import statements it cannot scan; its scanner names the same statement as the compiler, not always the same token); with include_package_files such a stop is accepted even when the reference targets themselves compile, without it they must build")
 	r.Assume("the compiler reports unused imports only for the files it is asked to compile, so a non-targeted import never carries unused-dependency markers; this is taken as 'what the compiler produces'")
 
 	var items []worldItem
@@ -557,7 +559,7 @@ func run(r *evid.Run) {
 	r.Set("shadow_phase_worlds", nShadow)
 
 	phaseOn := func(p string) bool {
-		f := os.Getenv("C01_PHASES") // debugging aid: comma separated subset of graph,paths,shadow,remote,dup,fault,bystander,protofile,options,cli,errors
+		f := os.Getenv("C01_PHASES") // debugging aid: comma separated subset of graph,paths,shadow,remote,dup,fault,bystander,protofile,options,cli,errors,referrors
 		return f == "" || strings.Contains(","+f+",", ","+p+",")
 	}
 	if os.Getenv("C01_PHASES") != "" {
@@ -572,6 +574,9 @@ func run(r *evid.Run) {
 		defer os.RemoveAll(scratch)
 		if phaseOn("errors") {
 			rn.runErrorPhase(scratch)
+		}
+		if phaseOn("referrors") {
+			rn.runRefErrorPhase(scratch)
 		}
 		if phaseOn("remote") {
 			rn.runRemotePhase()
@@ -638,6 +643,10 @@ func run(r *evid.Run) {
 		"bystander_not_targeted_by_file_reference", "bystander_cli_builds", "bystander_cli_builds_copy_to_memory", "bystander_worlds_v1", "bystander_worlds_listed_first",
 		"cli_error_runs_copy_to_memory", "cli_error_runs_copy_to_memory_relative_dir", "cli_error_runs_error_format_json", "cli_error_runs_error_format_msvs",
 		"cli_error_runs_error_format_junit", "cli_error_runs_error_format_github-actions", "cli_images_copy_to_memory",
+		"referr_api_builds", "referr_cli_runs", "referr_api_images", "referr_cli_images", "referr_api_reference_targets_do_not_compile",
+		"referr_api_builds_with_package_files_over_a_broken_header", "referr_api_diagnostics_in_a_file_outside_the_reference_build",
+		"referr_cli_diagnostics_in_a_file_outside_the_reference_build", "referr_api_diagnostics_where_the_path_given_differs_from_the_module_path",
+		"referr_cli_diagnostics_where_the_path_given_differs_from_the_module_path", "referr_cli_diagnostics_accepted_relative_dir",
 	} {
 		if rn.cnt[k] == 0 && !r.Expired() {
 			r.Incomplete("vacuous: counter " + k + " is zero")
